@@ -107,8 +107,8 @@ func (valdec byteArrayDecoder) Decode(dec *Decoder, p interface{}, tag byte) {
 	case TagString:
 		if dec.IsSimple() {
 			data, _ := dec.readStringAsBytes(dec.ReadCount())
-			dec.Skip()
 			valdec.copy(p, data)
+			dec.Skip()
 		} else {
 			valdec.copy(p, convert.ToUnsafeBytes(dec.ReadString()))
 		}
